@@ -794,7 +794,7 @@ def _finish(sim, res, net):
     res.digest = sim.digest()
     res.order_digest = sim.trace_order.hexdigest()
     res.events = sim.events_run
-    res.sim_time = sim.now
+    res.sim_time = sim.last_event_t
     res.faults = dict(net.fault_counts)
     res.overrun = sim.overrun
     for kind, etype, msg, fmt in logcap.end_run():
